@@ -328,9 +328,12 @@ impl Expr {
                     if let Some(ty) = ty {
                         let ty = ty.disregard_distractors(false);
 
-                        if ty.is_optional().1.is_some() && fallback.is_optional().1.is_some() {
+                        if ty.is_optional().1.is_some()
+                            && fallback.is_optional().1.is_some()
+                            && ty != &fallback
+                        {
                             // only check if neither of the operands is `nil`
-                            assert_eq!(ty, &fallback);
+                            bail!("the fallback of `or` has type {fallback}, but the value has type {ty}")
                         }
 
                         ty.clone()
@@ -339,10 +342,9 @@ impl Expr {
                         fallback
                     }
                 } else {
-                    assert_eq!(
-                        primary.disregard_distractors(false),
-                        fallback.disregard_distractors(false)
-                    );
+                    if primary.disregard_distractors(false) != fallback.disregard_distractors(false) {
+                        bail!("`or` is applied to a value of type {primary}, which is not optional, and its fallback of type {fallback} is not of the identical type")
+                    }
                     primary
                 })
             }
